@@ -46,7 +46,7 @@ func optCoq(s string, ok bool) string {
 }
 
 func genFSName(r *Rng) string {
-	alpha := []string{"a", "b", "ab", ".", "..", "", "a.b", "x y", "é", "a\\b", "c:"}
+	alpha := []string{"a", "b", "ab", ".", "..", "", "a.b", "x y", "é", "a\\b", "c:", "\uFFFD", "\uFEFFa"}
 	n := r.Range(1, 4)
 	var parts []string
 	for i := 0; i < n; i++ {
